@@ -932,6 +932,23 @@ def requires_ok(f, req):
     return missing
 
 
+_MSG_KINDS = ("call:Option::expect", "call:Result::expect", "call:panic", "call:panic_fmt", "call:panicking")
+_IDENT = re.compile(r"(?<![.\w'])([A-Za-z_][A-Za-z0-9_]*)\b(?!\()")
+
+
+def canon_key(key):
+    """a site key with local variable names blanked out (`exprs[Sub(len(exprs),2)]` -> `$[Sub(len($),2)]`), used only to
+    recognise a reviewed site again after a local was renamed. Details that are messages are left alone."""
+    parts = key.split(" # ")
+    if len(parts) < 3:
+        return key
+    kind = parts[-2]
+    if kind in _MSG_KINDS or kind.startswith("assert:Overflow") or kind.startswith("assert:Division") or kind.startswith("assert:Remainder"):
+        return key
+    parts[-1] = _IDENT.sub("$", parts[-1])
+    return " # ".join(parts)
+
+
 def run(ctx, res, layers, floor_fns, floor_sites, extra_roots=(), label="PANIC-INV"):
     """Evaluates PANIC-INV over the union of the given layers' roots. Adds obligations / violations to res.
     Returns (reach, inventory)."""
@@ -950,6 +967,8 @@ def run(ctx, res, layers, floor_fns, floor_sites, extra_roots=(), label="PANIC-I
     seen = Counter()
     by_rule = Counter()
     used_rows = set()
+    renamed_use = {}
+    live_keys = {site_key(P, f0, s0) for f0, s0 in inv if not s0.discharged}
     n_res = 0
     for f, s in inv:
         k = site_key(P, f, s)
@@ -986,6 +1005,29 @@ def run(ctx, res, layers, floor_fns, floor_sites, extra_roots=(), label="PANIC-I
                 used_rows.add(k)
                 n_res += 1
                 res.ok(label, k, "residue")
+            continue
+        # a reviewed site whose local variable was renamed: same function, kind and shape, same guards
+        ck = canon_key(k)
+        alt = None
+        if ck != k or True:
+            for rk, rrow in residue.items():
+                if rk in used_rows or rk in seen and seen[rk] > 0 and rk == k:
+                    continue
+                if rk.split(" # ", 1)[0] != f.path or canon_key(rk) != ck:
+                    continue
+                if rk in live_keys:
+                    continue
+                if rrow.get("guards") is not None and not _guards_match(rrow, 1, guard_fingerprint(f, s.bb)):
+                    continue
+                if requires_ok(f, rrow.get("requires", [])) or (rrow.get("census") and census_lost(f, rrow["census"])):
+                    continue
+                renamed_use[rk] = renamed_use.get(rk, 0) + 1
+                if renamed_use[rk] <= rrow.get("count", 1):
+                    alt = rk
+                    break
+        if alt is not None:
+            n_res += 1
+            res.ok(label, k, "residue (local renamed; reviewed as `%s`)" % alt.split(" # ")[-1])
             continue
         path = P.call_path(reach, f.path)
         key = k if seen[k] == 1 or not row else "%s # beyond-reviewed-count" % k
